@@ -1,3 +1,185 @@
-/-! # C20 — property theorems (to be written) -/
+import BddVerif.Lemmas.DotGraph
+/-!
+# C20 — the `.dot` export lists exactly the nodes and edges of the diagram
+
+Property theorems about the model `Model/Dot.lean` (helper lemmas: `Lemmas/DotParse.lean`,
+`Lemmas/DotGraph.lean`). `dotStmts A names pruned` is the sequence of statements written by
+`write_bdd_as_dot`, `render` its exact text, `parseDot` the reader, `evalDot` the evaluation of the graph that was
+read back (a missing edge or an undeclared vertex means 0).
+
+`innerPtrs A` are the decision nodes `2 … size-1`; `nodeAt A p` is node `p`; `evW A n v (root A)` is the value of a
+valid Bdd (`WFo A n`: what `validate()` accepts) under `v`, `den A v` the same for canonical arrays.
+-/
 namespace B.Props.C20
+open B B.Dot
+
+/-- an export that does not panic wrote `stmtsOf` -/
+theorem dotStmts_eq {A : Arr} {names : List String} {pruned : Bool} {S : List Stmt}
+    (h : dotStmts A names pruned = .ok S) : S = stmtsOf A names pruned := by
+  unfold dotStmts at h
+  split at h
+  · cases h
+  · split at h
+    · cases h
+    · split at h
+      · cases h
+      · cases h; rfl
+
+/-- a valid Bdd with as many names as variables is exported without panic; a different number of names is the
+    documented panic -/
+theorem dot_outcome {A : Arr} {n : Nat} (hw : WFo A n) (names : List String) (pruned : Bool) :
+    (names.length = n → dotStmts A names pruned = .ok (stmtsOf A names pruned)) ∧
+    (names.length ≠ n → ∃ m, dotStmts A names pruned = .panic m) := by
+  refine ⟨fun hn => dotStmts_ok hw names hn pruned, ?_⟩
+  intro hn
+  unfold dotStmts
+  rw [if_neg (by have := hw.size_pos; omega), if_pos (by rw [numVars_of_wf hw]; exact hn)]
+  exact ⟨_, rfl⟩
+
+/-- the text starts with the header and ends with the footer, and these occur once -/
+theorem dot_frame (A : Arr) (names : List String) (pruned : Bool) :
+    ∃ body, stmtsOf A names pruned = Stmt.header :: Stmt.initNode :: body ++ [Stmt.footer] ∧
+      Stmt.header ∉ body ∧ Stmt.footer ∉ body ∧ Stmt.initNode ∉ body := by
+  refine ⟨[Stmt.initEdge (root A)] ++ (if pruned then [] else [Stmt.terminal false]) ++ [Stmt.terminal true] ++
+    (innerPtrs A).flatMap (nodeStmts A names pruned), ?_, ?_, ?_, ?_⟩
+  · unfold stmtsOf preamble; simp
+  all_goals
+    simp only [List.mem_append, List.mem_flatMap, not_or, not_exists, not_and]
+    refine ⟨⟨⟨by simp, by cases pruned <;> simp⟩, by simp⟩, ?_⟩
+    intro q _
+    unfold nodeStmts
+    by_cases h1 : (!pruned || (nodeAt A q).high != 0) = true <;>
+    by_cases h2 : (!pruned || (nodeAt A q).low != 0) = true <;> simp [h1, h2]
+
+/-- exactly one vertex per decision node, labelled with the name of the node's variable, in node order -/
+theorem dot_vertices {A : Arr} {names : List String} {pruned : Bool} {S : List Stmt}
+    (h : dotStmts A names pruned = .ok S) :
+    S.filterMap vertexOf = (innerPtrs A).map fun p => (p, names[(nodeAt A p).var]?.getD "") := by
+  rw [dotStmts_eq h]; exact stmts_vertices A names pruned
+
+/-- exactly the edges of the diagram: per decision node one solid edge to its high child and one dotted edge to
+    its low child (with zero-pruning: unless that child is 0); exactly one entry edge, to the root; the terminal
+    vertices `0` and `1` (with zero-pruning: only `1`) -/
+theorem dot_edges {A : Arr} {names : List String} {pruned : Bool} {S : List Stmt}
+    (h : dotStmts A names pruned = .ok S) :
+    S.filterMap edgeOf = (innerPtrs A).flatMap (nodeEdges A pruned) ∧
+    S.filterMap entryEdgeOf = [root A] ∧
+    S.filterMap terminalOf = (if pruned then [true] else [false, true]) := by
+  rw [dotStmts_eq h]
+  exact ⟨stmts_edges A names pruned, stmts_entry A names pruned, stmts_terminals A names pruned⟩
+
+/-- the edges of one node, spelled out -/
+theorem node_edges_spec (A : Arr) (p : Nat) :
+    nodeEdges A false p = [(p, (nodeAt A p).high, Style.filled), (p, (nodeAt A p).low, Style.dotted)] ∧
+    nodeEdges A true p = (nodeEdges A false p).filter (fun e => e.2.1 != 0) := by
+  unfold nodeEdges
+  by_cases h1 : (nodeAt A p).high = 0 <;> by_cases h2 : (nodeAt A p).low = 0 <;> simp [h1, h2]
+
+/-- with zero-pruning exactly the `0` terminal and the edges of decision nodes into `0` are missing, nothing else
+    changes (same outcome, same order). The entry edge is never pruned (for the constant false it points to the
+    then undeclared vertex `0`). -/
+theorem dot_pruned (A : Arr) (names : List String) :
+    dotStmts A names true = (dotStmts A names false).map (List.filter keepPruned) := by
+  unfold dotStmts
+  split
+  · rfl
+  · split
+    · rfl
+    · split
+      · rfl
+      · simp [Outcome.map, stmts_pruned]
+
+/-- `parse_render`, statement level: every statement is read back from its line (labels without `"`) -/
+theorem parse_render (s : Stmt) (hs : SafeStmt s) : parseLine (renderStmt s) = some s :=
+  parse_render_stmt s hs
+
+/-- `parse_render`, text level: labels without `"` and without line feed -/
+theorem parse_render_text (ss : List Stmt) (h1 : ∀ s ∈ ss, SafeStmt s) (h2 : ∀ s ∈ ss, LineStmt s) :
+    parseDot (render ss) = some ss :=
+  parseDot_render ss h1 h2
+
+theorem stmts_safe (A : Arr) (names : List String) (pruned : Bool)
+    (hnames : ∀ s ∈ names, SafeLabel s ∧ LineLabel s) :
+    ∀ st ∈ stmtsOf A names pruned, SafeStmt st ∧ LineStmt st := by
+  intro st hst
+  unfold stmtsOf preamble at hst
+  simp only [List.mem_append, List.mem_flatMap] at hst
+  have hlabel : ∀ i : Nat, SafeLabel (names[i]?.getD "") ∧ LineLabel (names[i]?.getD "") := by
+    intro i
+    cases hg : names[i]? with
+    | none => exact ⟨by simp [SafeLabel], by simp [LineLabel]⟩
+    | some s => exact hnames s (List.mem_of_getElem? hg)
+  have hnv : ∀ st : Stmt, (∀ p l, st ≠ .vertex p l) → SafeStmt st ∧ LineStmt st := by
+    intro st h; cases st <;> first | exact ⟨trivial, trivial⟩ | exact absurd rfl (h _ _)
+  rcases hst with (hs | ⟨q, _, hs⟩) | hs
+  · apply hnv; intro p l e; subst e; cases pruned <;> simp at hs
+  · unfold nodeStmts at hs
+    simp only [List.mem_append, List.mem_singleton] at hs
+    rcases hs with (hs | hs) | hs
+    · subst hs; exact hlabel _
+    · split at hs
+      · simp at hs; subst hs; exact ⟨trivial, trivial⟩
+      · cases hs
+    · split at hs
+      · simp at hs; subst hs; exact ⟨trivial, trivial⟩
+      · cases hs
+  · simp at hs; subst hs; exact ⟨trivial, trivial⟩
+
+/-- `dot_eval`, on statements: the exported graph evaluates like the Bdd, for every valid Bdd, with and without
+    zero-pruning; `val` gives the value of a variable by its NAME -/
+theorem dot_eval {A : Arr} {n : Nat} (hw : WFo A n) (names : List String) (pruned : Bool) (val : String → Bool) :
+    evalDot (stmtsOf A names pruned) val (n + 1) = evW A n (fun x => val (names[x]?.getD "")) (root A) := by
+  unfold evalDot evW
+  rw [entryOf_stmts]
+  exact evalGraph_eq hw names pruned val (n + 1) (root A) (root_lt hw)
+
+/-- `dot_eval`, on the text: for a valid Bdd and names without `"` / line feed, the text is produced, can be read
+    back, and the graph read back evaluates like the Bdd -/
+theorem dot_text_eval {A : Arr} {n : Nat} (hw : WFo A n) (names : List String) (hn : names.length = n)
+    (hnames : ∀ s ∈ names, SafeLabel s ∧ LineLabel s) (pruned : Bool) :
+    ∃ text S, toDotString A names pruned = .ok text ∧ parseDot text = some S ∧
+      ∀ val, evalDot S val (n + 1) = evW A n (fun x => val (names[x]?.getD "")) (root A) := by
+  refine ⟨render (stmtsOf A names pruned), stmtsOf A names pruned, ?_, ?_, fun val => dot_eval hw names pruned val⟩
+  · unfold toDotString
+    rw [dotStmts_ok hw names hn pruned]; rfl
+  · exact parseDot_render _ (fun s hs => (stmts_safe A names pruned hnames s hs).1)
+      (fun s hs => (stmts_safe A names pruned hnames s hs).2)
+
+/-- with pairwise distinct names (what a `BddVariableSet` guarantees, C16) a valuation of the variables is a
+    valuation of the names: the graph evaluates like the Bdd on every valuation `v` -/
+theorem dot_eval_by_index {A : Arr} {n : Nat} (hw : WFo A n) (names : List String) (hn : names.length = n)
+    (hnd : names.Nodup) (pruned : Bool) (v : Nat → Bool) :
+    evalDot (stmtsOf A names pruned) (fun s => v (names.idxOf s)) (n + 1) = evW A n v (root A) := by
+  rw [dot_eval hw names pruned]
+  apply evW_indep hw n (root A) (root_lt hw) (by omega)
+  intro i _ hi
+  have hi' : i < names.length := by omega
+  simp only [List.getElem?_eq_getElem hi', Option.getD_some]
+  rw [hnd.idxOf_getElem i hi']
+
+/-- for canonical (reduced, post-order) arrays `evW` is the denotation `den` -/
+theorem dot_eval_den {A : Arr} {n : Nat} (hr : Red A n) (hw : WFo A n) (names : List String) (hn : names.length = n)
+    (hnd : names.Nodup) (pruned : Bool) (v : Nat → Bool) :
+    evalDot (stmtsOf A names pruned) (fun s => v (names.idxOf s)) (n + 1) = den A v := by
+  rw [dot_eval_by_index hw names hn hnd pruned v]
+  exact B.VS.evW_eq_ev hr hw v (root A) (root_lt hw)
+
+/-! ## non-vacuity -/
+
+/-- `x1 ∧ ¬x2` over 3 variables with a shared structure: a valid Bdd -/
+def exA : Arr := #[⟨3, 0, 0⟩, ⟨3, 1, 1⟩, ⟨2, 1, 0⟩, ⟨1, 0, 2⟩]
+theorem exA_wf : WFo exA 3 := wfoB_sound (by decide)
+
+example : (∀ s ∈ ["a", "b b", "é"], SafeLabel s ∧ LineLabel s) := by simp [SafeLabel, LineLabel]
+example : ["a", "b b", "é"].Nodup := by decide
+
+/-- the statements of the pruned export of `exA` -/
+example : stmtsOf exA ["a", "b", "c"] true =
+    [.header, .initNode, .initEdge 3, .terminal true, .vertex 2 "c", .edge 2 1 .dotted,
+     .vertex 3 "b", .edge 3 2 .filled, .footer] := by decide
+
+/-- … and a line of its text -/
+example : renderStmt (.edge 3 2 .filled) = "3 -> 2 [style=filled];".toList := by
+  simp [renderStmt, digits_lt, tArrow, styleText, tFilled, digitChar]
+
 end B.Props.C20
